@@ -18,6 +18,7 @@ import (
 	"reflect"
 	"sort"
 	"strings"
+	"sync"
 	"sync/atomic"
 	"testing"
 	"time"
@@ -35,8 +36,11 @@ type c19Input struct {
 	Tokens   []string `json:"tokens,omitempty"`   // token-type sentence (symbolic names, without EOF)
 	Expected []string `json:"expected,omitempty"` // rule names of the derivation, pre-order
 	Mutated  bool     `json:"mutated,omitempty"`
-	Artefact string   `json:"artefact,omitempty"` // artefact comparison that failed
-	Walk     bool     `json:"atn_walk,omitempty"` // tokens come from a walk through the automaton
+	Artefact string   `json:"artefact,omitempty"`   // artefact comparison that failed
+	Walk     bool     `json:"atn_walk,omitempty"`   // tokens come from a walk through the automaton
+	LexRule  string   `json:"lexer_rule,omitempty"` // lexer grammar <-> lexer automaton: the rule ...
+	LexText  string   `json:"lexer_text,omitempty"` // ... and the characters
+	LexFrom  string   `json:"lexer_from,omitempty"` // "g4" (sampled from the grammar rule) or "atn" (walk through the automaton)
 }
 
 const c19Rule = "exhaustive over the finite artefact set: serialized ATN of lexer and parser decoded from Go, TypeScript, Java sources and the six .interp files (pairwise equal per grammar), " +
@@ -45,7 +49,10 @@ const c19Rule = "exhaustive over the finite artefact set: serialized ATN of lexe
 	"parsed by the generated Go parser through a list-backed token source (lexer bypassed): zero syntax errors and the same rules as the derivation (the four rules involved in the " +
 	"relationRecurse ambiguity are compared as a multiset); single-token deletions/insertions/replacements that the .g4 recogniser rejects must yield a syntax error; " +
 	"conversely, rapid-drawn random walks through the parser automaton (own deserializer of the serialized ATN) must be sentences of OpenFGAParser.g4 and be accepted by the Go parser. " +
-	"Non-trivial = sentence using >= 8 distinct rules; distinct by token sequence."
+	"Lexer grammar <-> lexer automaton, rule by rule, no generated code involved: OpenFGALexer.g4 is read by an own lexer-grammar reader; modes, rule-to-mode membership and order, token " +
+	"types and lexer commands (type, pushMode, popMode, channel) are compared structurally with the automaton; one string per alternative of every rule (fragments inlined) and rapid-sampled " +
+	"strings of each rule must drive the automaton's rule from start to stop state, and rapid-drawn walks through the automaton's rule must be in the language the grammar gives the rule. " +
+	"Non-trivial = sentence using >= 8 distinct rules, or a lexer string of >= 3 characters; distinct by token sequence / rule and text."
 
 func c19Read(rel string) string {
 	b, err := os.ReadFile(filepath.Join(ev.Repo(), rel))
@@ -437,6 +444,14 @@ func TestC19(t *testing.T) {
 		"the lexer artefacts are tied together by ATN/vocabulary equality; their agreement with OpenFGALexer.g4 is exercised through the documents of C01/C03")
 	if ev.Shard() == 0 {
 		msg, n := c19Artefacts()
+		if msg == "" {
+			m2, n2 := c19LexStructure()
+			msg, n = m2, n+n2
+		}
+		if msg == "" {
+			m2, n2 := c19LexCoverAlternatives()
+			msg, n = m2, n+n2
+		}
 		rec.Bulk(int64(n), int64(n), map[string]int64{"artefact:comparisons": int64(n)})
 		rec.Sample(map[string]any{"artefact_comparisons": n, "what": "ATN x4 per grammar, .interp x6, .tokens x6, name tables, .g4 vocabularies, 27 rule skeletons x3, listener methods"})
 		if msg != "" {
@@ -564,6 +579,112 @@ func TestC19(t *testing.T) {
 			rt.Fatalf("%s", msg)
 		}
 	}))
+	if t.Failed() {
+		return
+	}
+	// (5) lexer grammar <-> lexer automaton, rule by rule, both directions: strings sampled from the rule as
+	// OpenFGALexer.g4 writes it must drive the automaton's rule to its stop state; random walks through the automaton's
+	// rule must be in the rule's language by the grammar. No generated code runs here.
+	lx := c19LexSetup()
+	if lx.err != "" {
+		ev.HarnessError("C19", "%s", lx.err)
+		t.Fatalf("harness: %s", lx.err)
+	}
+	t.Run("lexer-rules", rapid.MakeCheck(func(rt *rapid.T) {
+		for rep := 0; rep < 8; rep++ {
+			r := lx.g.Rules[rapid.IntRange(0, len(lx.g.Rules)-1).Draw(rt, "lexRule")]
+			in := c19Input{LexRule: r.Name}
+			if rapid.Bool().Draw(rt, "fromGrammar") {
+				s, ok := lx.g.Sample(rapidG4Chooser{rt}, r.Name, rapid.IntRange(5, 40).Draw(rt, "lexBudget"))
+				if !ok {
+					ev.HarnessError("C19", "cannot parse OpenFGALexer.g4: rule %s uses a construct the reader does not support", r.Name)
+					rt.Fatalf("harness: unsupported construct in %s", r.Name)
+				}
+				in.LexText, in.LexFrom = string(s), "g4"
+			} else {
+				s, ok := lx.atn.WalkChars(rapidG4Chooser{rt}, lx.index[r.Name], rapid.IntRange(5, 60).Draw(rt, "lexBudget"))
+				if !ok {
+					rec.Case("lex-abandoned:"+r.Name, false, nil, "lexer:walk-abandoned")
+					continue
+				}
+				in.LexText, in.LexFrom = string(s), "atn"
+			}
+			nt := len([]rune(in.LexText)) >= 3
+			var sample any
+			if nt {
+				sample = map[string]any{"lexer_rule": in.LexRule, "text": in.LexText, "from": in.LexFrom}
+			}
+			rec.Case("lex:"+in.LexRule+":"+in.LexText, nt, sample, "lexer:from-"+in.LexFrom)
+			if msg := c19LexCheck(in); msg != "" {
+				rec.Violation(in, msg)
+				rt.Fatalf("%s", msg)
+			}
+		}
+	}))
+}
+
+// forcedAlt is a chooser that takes the first alternative everywhere except at the target-th alternative it meets,
+// where it takes the given branch: enumerating (target, branch) covers every alternative of a rule at least once.
+type forcedAlt struct {
+	target, branch int
+	seen           int
+	expanded       int
+	arity          int // arity of the target alternative (0 = never reached)
+}
+
+func (f *forcedAlt) Intn(n int, label string) int {
+	switch label {
+	case "alt":
+		f.seen++
+		if f.seen-1 == f.target {
+			f.arity = n
+			if f.branch < n {
+				return f.branch
+			}
+		}
+	case "opt", "reps":
+		// expand optional parts and loops once, so that the alternatives inside them are met (bounded: NEWLINE refers
+		// to itself through an optional tail)
+		f.expanded++
+		if f.expanded <= 60 {
+			return 1
+		}
+	}
+	return 0
+}
+
+// c19LexCoverAlternatives: every alternative written in a lexer rule of OpenFGALexer.g4 (fragments inlined) yields at
+// least one string the automaton's rule must match.
+func c19LexCoverAlternatives() (string, int) {
+	lx := c19LexSetup()
+	if lx.err != "" {
+		return lx.err, 0
+	}
+	n := 0
+	for _, r := range lx.g.Rules {
+		for target := 0; target < 2000; target++ {
+			arity := 1
+			for branch := 0; branch < arity; branch++ {
+				f := &forcedAlt{target: target, branch: branch}
+				s, ok := lx.g.Sample(f, r.Name, 1<<30)
+				if !ok {
+					return "cannot parse OpenFGALexer.g4: rule " + r.Name + " uses a construct the reader does not support", n
+				}
+				arity = f.arity
+				if arity == 0 {
+					break
+				}
+				n++
+				if msg := c19LexCheck(c19Input{LexRule: r.Name, LexText: string(s), LexFrom: "g4"}); msg != "" {
+					return msg, n
+				}
+			}
+			if arity == 0 {
+				break // fewer than target+1 alternatives are met in this rule: all of them are covered
+			}
+		}
+	}
+	return "", n
 }
 
 // c19WalkCheck: a path through the generated automaton must be a sentence of the .g4 grammar and
@@ -579,6 +700,150 @@ func c19WalkCheck(in c19Input) string {
 	return ""
 }
 
+// ---- lexer grammar <-> lexer automaton ---------------------------------------------------------
+
+type c19Lex struct {
+	g     *g4.LexGrammar
+	atn   *g4.ATN
+	index map[string]int
+	err   string
+}
+
+var (
+	c19LexOnce sync.Once
+	c19LexVal  c19Lex
+)
+
+func c19LexSetup() *c19Lex {
+	c19LexOnce.Do(func() {
+		g, err := g4.ParseLexerGrammar(c19Read("OpenFGALexer.g4"))
+		if err != nil {
+			c19LexVal.err = "cannot parse OpenFGALexer.g4: " + err.Error()
+			return
+		}
+		data, err := g4.InterpATN(c19Read(goGen + "OpenFGALexer.interp"))
+		if err != nil {
+			c19LexVal.err = "cannot read the lexer ATN: " + err.Error()
+			return
+		}
+		a, err := g4.ParseATN(data)
+		if err != nil {
+			c19LexVal.err = "cannot decode the lexer ATN: " + err.Error()
+			return
+		}
+		c19LexVal = c19Lex{g: g, atn: a, index: map[string]int{}}
+		for i, r := range g.Rules {
+			c19LexVal.index[r.Name] = i
+		}
+	})
+	return &c19LexVal
+}
+
+// c19LexStructure: rule for rule, the lexer automaton must carry the modes, token types and lexer commands that
+// OpenFGALexer.g4 declares (the rule NAMES are compared by c19Artefacts).
+func c19LexStructure() (string, int) {
+	lx := c19LexSetup()
+	if lx.err != "" {
+		return lx.err, 0
+	}
+	n := 0
+	goTab, err := g4.GoTables(c19Read(goGen + "openfga_lexer.go"))
+	if err != nil {
+		return "cannot extract name tables: " + err.Error(), n
+	}
+	typeOf := map[string]int{}
+	for i, sname := range goTab.Symbolic {
+		if sname != "" {
+			typeOf[sname] = i
+		}
+	}
+	if lx.atn.GrammarType != 0 || lx.atn.NumRules() != len(lx.g.Rules) {
+		return fmt.Sprintf("the lexer automaton has %d rules, OpenFGALexer.g4 declares %d", lx.atn.NumRules(), len(lx.g.Rules)), n
+	}
+	if len(lx.atn.ModeStart) != len(lx.g.Modes) {
+		return fmt.Sprintf("the lexer automaton has %d modes, OpenFGALexer.g4 declares %v", len(lx.atn.ModeStart), lx.g.Modes), n
+	}
+	modeIdx := map[string]int{}
+	for i, m := range lx.g.Modes {
+		modeIdx[m] = i
+	}
+	for mi, mode := range lx.g.Modes {
+		var want []int
+		for i, r := range lx.g.Rules {
+			if !r.Fragment && r.Mode == mode {
+				want = append(want, i)
+			}
+		}
+		n++
+		if got := lx.atn.ModeRules(mi); fmt.Sprint(got) != fmt.Sprint(want) {
+			return fmt.Sprintf("mode %s: the automaton tries rules %v, OpenFGALexer.g4 puts rules %v into this mode", mode, got, want), n
+		}
+	}
+	for i, r := range lx.g.Rules {
+		var want [][3]int
+		retyped := false
+		for _, c := range r.Commands {
+			switch c.Name {
+			case "type":
+				retyped = true
+				want = append(want, [3]int{7, typeOf[c.Arg], 0})
+			case "pushMode":
+				want = append(want, [3]int{5, modeIdx[c.Arg], 0})
+			case "popMode":
+				want = append(want, [3]int{4, 0, 0})
+			case "mode":
+				want = append(want, [3]int{2, modeIdx[c.Arg], 0})
+			case "skip":
+				want = append(want, [3]int{6, 0, 0})
+			case "more":
+				want = append(want, [3]int{3, 0, 0})
+			case "channel":
+				ch := map[string]int{"HIDDEN": 1, "DEFAULT_TOKEN_CHANNEL": 0}[c.Arg]
+				want = append(want, [3]int{0, ch, 0})
+			default:
+				return "cannot parse OpenFGALexer.g4: unknown lexer command " + c.Name, n
+			}
+		}
+		n += 2
+		if got := lx.atn.RuleActions(i); fmt.Sprint(got) != fmt.Sprint(want) {
+			return fmt.Sprintf("lexer rule %s: OpenFGALexer.g4 has commands %v (= actions %v), the automaton executes %v", r.Name, r.Commands, want, got), n
+		}
+		wantType := 0
+		if !r.Fragment && !retyped {
+			wantType = typeOf[r.Name]
+		}
+		if lx.atn.RuleTokenType[i] != wantType {
+			return fmt.Sprintf("lexer rule %s: the automaton emits token type %d, OpenFGALexer.g4 implies %d", r.Name, lx.atn.RuleTokenType[i], wantType), n
+		}
+	}
+	return "", n
+}
+
+// c19LexCheck: the characters must be in the language of the rule both by the grammar and by the automaton.
+func c19LexCheck(in c19Input) string {
+	lx := c19LexSetup()
+	if lx.err != "" {
+		return ""
+	}
+	i, ok := lx.index[in.LexRule]
+	if !ok {
+		return ""
+	}
+	s := []rune(in.LexText)
+	byATN := lx.atn.MatchRule(i, s)
+	byG4, sup := lx.g.Matches(in.LexRule, s)
+	if !sup {
+		return ""
+	}
+	if byATN != byG4 {
+		if byG4 {
+			return fmt.Sprintf("lexer rule %s: %q is in the language OpenFGALexer.g4 gives the rule, but the generated automaton does not match it (grammar edited without regenerating?)", in.LexRule, in.LexText)
+		}
+		return fmt.Sprintf("lexer rule %s: the generated automaton matches %q, which is not in the language OpenFGALexer.g4 gives the rule", in.LexRule, in.LexText)
+	}
+	return ""
+}
+
 func TestReplayC19(t *testing.T) {
 	for _, f := range ev.ReplayFiles("C19") {
 		var in c19Input
@@ -586,6 +851,13 @@ func TestReplayC19(t *testing.T) {
 			t.Fatalf("%s: %v", f, err)
 		}
 		rec := ev.New("C19", c19Rule)
+		if in.LexRule != "" {
+			if msg := c19LexCheck(in); msg != "" {
+				rec.Violation(in, msg)
+				t.Errorf("%s: %s", f, msg)
+			}
+			continue
+		}
 		if in.Artefact != "" || len(in.Tokens) == 0 {
 			if msg, _ := c19Artefacts(); msg != "" {
 				rec.Violation(in, msg)
